@@ -105,6 +105,9 @@ pub enum Mode {
     /// after the start history (which has used X already) X is declared with a note and, after it, the alias `xx`;
     /// the judged transaction writes `xx` wherever it means X
     ComAlias,
+    /// after the start history (which has used account A already) A is declared with the alias `aa`; the judged
+    /// transaction writes `aa` for A
+    AcctAliasLate,
 }
 
 pub struct Case {
@@ -141,6 +144,13 @@ pub fn build(mode: Mode, hist: &[Txn], txn: &Txn) -> Case {
             let (f, l) = *r.txn_lines.last().unwrap();
             let text = if mode == Mode::Crlf { r.text.replace('\n', "\r\n") } else { r.text.clone() };
             Case { desc: r.text.clone(), files: vec![(root, text)], txn_first: f, txn_last: l, posting_lines: r.posting_lines.last().unwrap().clone(), hist_has_assert_after_omitted }
+        }
+        Mode::AcctAliasLate => {
+            let h = rl::render("", hist, &|_, _, a| a.to_string());
+            let header = format!("{}account A\n  alias aa\n\naccount B\n\n", h.text);
+            let t = rl::render(&header, std::slice::from_ref(txn), &|_, _, a| if a == "A" { "aa".to_string() } else { a.to_string() });
+            let (f, l) = t.txn_lines[0];
+            Case { desc: t.text.clone(), files: vec![(root, t.text)], txn_first: f, txn_last: l, posting_lines: t.posting_lines[0].clone(), hist_has_assert_after_omitted }
         }
         Mode::ComAlias => {
             let h = rl::render("", hist, &|_, _, a| a.to_string());
@@ -265,7 +275,7 @@ pub fn enumerate_depth1(ctx: &mut Ctx, relevant: &dyn Fn(&Txn) -> bool, judge: &
         let n_hist = hists[hi].len();
         ctx.case(|| format!("[mode {:?}]\n{}", mode, case.desc), || judge(&case, st, &txn, n_hist));
     };
-    for mode in [Mode::Plain, Mode::Alias, Mode::Include, Mode::Crlf, Mode::ComAlias] {
+    for mode in [Mode::Plain, Mode::Alias, Mode::Include, Mode::Crlf, Mode::ComAlias, Mode::AcctAliasLate] {
         for hi in 0..hists.len() {
             for a in &full {
                 emit(ctx, mode, hi, vec![a.clone()]);
